@@ -17,11 +17,11 @@ EXTENDS BlockRules, TLC, Json
 
 CONSTANTS ParentGasLimits, SlotDistances, PairBodies, RichTx, Factored
 
-AllCfg == [vip191 : BOOLEAN, vip214 : BOOLEAN, finality : BOOLEAN, galactica : BOOLEAN, gfirst : BOOLEAN, pos : BOOLEAN, nprop : {3}]
-Cfgs == {g \in AllCfg : /\ (g.vip214 => g.vip191) /\ (g.finality => g.vip214) /\ (g.galactica => g.finality)
+AllCfg == [vip191 : BOOLEAN, blocklist : BOOLEAN, vip214 : BOOLEAN, finality : BOOLEAN, galactica : BOOLEAN, gfirst : BOOLEAN, pos : BOOLEAN, nprop : {3}]
+Cfgs == {g \in AllCfg : /\ (g.blocklist => g.vip191) /\ (g.vip214 => g.blocklist) /\ (g.finality => g.vip214) /\ (g.galactica => g.finality)
                         /\ (g.gfirst => g.galactica) /\ (g.pos => (g.galactica /\ ~g.gfirst))}
 
-Num == FromInt(5)
+Num == FromInt(5)       \* (replay_beyond_scan_window needs a chain of > 105 blocks: see InitHigh)
 
 ParOf(g, gl, gu, bf) ==
   LET hasbf == g.galactica /\ ~g.gfirst
@@ -37,14 +37,14 @@ Pars(g) ==
          gl \in ParentGasLimits}
 
 VTx(g) == {[tagok |-> TRUE, ref |-> r, exp |-> e, typ |-> ty, feat |-> f, unused |-> 0, origin |-> TRUE, dupb |-> FALSE,
-            onchain |-> FALSE, dep |-> d, start |-> TRUE, gas |-> 21000] :
+            onchain |-> FALSE, blocked |-> FALSE, dep |-> d, start |-> TRUE, gas |-> 21000] :
              r \in IF RichTx THEN {Monus(Num, FromInt(2)), Num} ELSE {Monus(Num, FromInt(2))},
              e \in IF RichTx THEN {FromInt(2), FromInt(30)} ELSE {FromInt(2)},
              ty \in {"legacy"} \cup (IF g.galactica THEN {"dyn"} ELSE {}),
              f \in {0} \cup (IF g.vip191 THEN {1} ELSE {}), d \in {"none", "ok"}}
 
 Plain(g) == [tagok |-> TRUE, ref |-> Monus(Num, One), exp |-> FromInt(10), typ |-> "legacy", feat |-> 0, unused |-> 0,
-             origin |-> TRUE, dupb |-> FALSE, onchain |-> FALSE, dep |-> "none", start |-> TRUE, gas |-> 21000]
+             origin |-> TRUE, dupb |-> FALSE, onchain |-> FALSE, blocked |-> FALSE, dep |-> "none", start |-> TRUE, gas |-> 21000]
 
 Bodies(g, par) ==
   {<< >>} \cup {<<t>> : t \in VTx(g)}
@@ -98,7 +98,12 @@ InitFactored ==
        IN \E txs \in Bodies(g, par) :
             /\ base = BaseCase(g, par, 1, "same", com, sbset, txs)
             /\ key = <<"none", "none">> /\ mutant = base
-Init == IF Factored THEN InitFactored ELSE InitFull
+\* a block far from genesis (empty body), so that the departures that need > 105 ancestors apply
+InitHigh == \E g \in Cfgs :
+              /\ base = [BaseCase(g, ParOf(g, FromInt(2000000), FromInt(21000), InitialBaseFee), 1, "same", FALSE, FALSE, << >>)
+                          EXCEPT !.num = FromInt(120)]
+              /\ key = <<"none", "none">> /\ mutant = base
+Init == (IF Factored THEN InitFactored ELSE InitFull) \/ InitHigh
 Next == /\ key = <<"none", "none">>
         /\ \E k \in CatKeys : /\ Applicable(base, k) /\ key' = k /\ mutant' = Mutate(base, k)
         /\ UNCHANGED base
@@ -119,7 +124,7 @@ CatalogueOK ==
           /\ (want = "reject" /\ key[1] \in CriticalRules /\ Entry[4] \subseteq CriticalRules)
                 => v \subseteq CriticalRules                                            \* ClassDeclared
 \* a rule of the catalogue without any departure would be a rule nobody tests
-EveryRuleHasDeparture == \A r \in RuleNames \ {"not_future"} : \E e \in Catalogue : e[1] = r /\ e[3] \in {"reject", "benef"}
+EveryRuleHasDeparture == \A r \in RuleNames \ {"not_future"} : \E e \in Catalogue : e[1] = r /\ e[3] \in {"reject", "benef", "blocklist"}
 ASSUME EveryRuleHasDeparture
 ASSUME \A e \in Catalogue : e[1] \in RuleNames \cup {"valid"} /\ e[4] \subseteq RuleNames
 
